@@ -3,7 +3,7 @@ import copy
 
 from harness import tlc
 from harness.common import CANARY_BASE, Report, import_hpl, rng, split_canaries, tier
-from harness.corpus import accepted
+from harness.corpus import accepted, accepted_families
 from harness.project import project, signature_tables
 from harness.rewrites import applicable, results_of, run_call
 
@@ -14,6 +14,9 @@ def run(replay=None):
     thorough = tier() == 'thorough'
     asts, stats = accepted(thorough, limit=None if thorough else 6000, salt='c03')
     rep.add_tlc(stats)
+    fams, st2 = accepted_families(['quants', 'slots', 'funs', 'incl', 'bool1w', 'alias', 'cmp11'], cap=None if thorough else 400, salt='c03f')
+    rep.add_tlc(st2)
+    asts = asts + fams
     rnd = rng('c03')
     events, info = [], {}
     eid = 0
